@@ -12,6 +12,8 @@ PROP = "C10"
 def model(macro, feature, unimock, mock_api, mockall, export, target):
     if target == "cfn":
         target = "fn"   # a fn with a concrete dependency: same rules (its leaf trait is expanded once more, in trait mode)
+    if target in ("trait0", "mod0"):
+        target = target[:-1]   # a trait without methods / a module without visible fns: same rules
     unimock_on = unimock if unimock is not None else feature
     emit_unimock = unimock_on and (target == "trait" or mock_api)
     emit_mockall = mockall is True
@@ -24,8 +26,8 @@ def lattice():
     pts = []
     for macro, feature, unimock, mock_api, mockall, target in itertools.product(
             ["entrait", "entrait_export"], [False, True], [None, True, False], [False, True], [None, True, False],
-            ["fn", "mod", "trait", "cfn"]):
-        for export in ([None, True, False] if target != "trait" else [None]):
+            ["fn", "mod", "trait", "cfn", "trait0", "mod0"]):
+        for export in ([None, True, False] if not target.startswith("trait") else [None]):
             pts.append(dict(macro=macro, feature=feature, unimock=unimock, mock_api=mock_api, mockall=mockall,
                             export=export, target=target))
     return pts
@@ -48,9 +50,9 @@ def opt_text(rng, p):
 def make_case(cid, p, rng, e2e):
     opts = opt_text(rng, p)
     t = p["target"]
-    if t == "trait":
+    if t in ("trait", "trait0"):
         attr = "#[::entrait::%s(%s)] /*@inv*/" % (p["macro"], ", ".join(opts))
-        item = "pub trait Tr { fn f(&self, a: i32) -> i32; }"
+        item = "pub trait Tr { fn f(&self, a: i32) -> i32; }" if t == "trait" else "pub trait Tr {}"
         scope = "self"
     elif t == "fn":
         attr = "#[::entrait::%s(%s)] /*@inv*/" % (p["macro"], ", ".join(["pub Tr"] + opts))
@@ -62,7 +64,7 @@ def make_case(cid, p, rng, e2e):
         scope = "self"
     else:
         attr = "#[::entrait::%s(%s)] /*@inv*/" % (p["macro"], ", ".join(["pub Tr"] + opts))
-        item = "pub mod m { pub fn f<D>(deps: &D, a: i32) -> i32 { a } }"
+        item = "pub mod m { pub fn f<D>(deps: &D, a: i32) -> i32 { a } }" if t == "mod" else "pub mod m { fn helper() -> i32 { 1 } pub struct NotAFn; }"
         scope = "self::m"
     lines = [attr, item, "pub fn run() {", '    ::vrt::fact("is_test", cfg!(test));']
     if e2e:
@@ -124,7 +126,7 @@ def attrs_of_trait(items):
 def run(tier, seed):
     rep = core.Report(PROP, tier, seed)
     rep.rule = ("the full lattice {entrait, entrait_export} x {feature off,on} x unimock{absent,true,false} x mock_api{absent,present} "
-                "x mockall{absent,true,false} x export{absent,true,false; fn/mod} x {fn, fn with concrete deps, mod, trait} is enumerated; every point is decided "
+                "x mockall{absent,true,false} x export{absent,true,false; fn/mod} x {fn, fn with concrete deps, mod, mod without visible fns, trait, trait without methods} is enumerated; every point is decided "
                 "on the recorded trait attributes, and end-to-end in a non-test and a test build through probes "
                 "(Unimock: Trait? does MockTr exist?) wherever the point can compile (feature off + unimock emission cannot: "
                 "::entrait::__unimock does not exist). non-trivial = some mock option or the feature is on")
